@@ -1155,6 +1155,24 @@ func TestCheck(t *testing.T) {
 			list = append(list, d1x.Scenario{Name: p.sc.name, QuickBound: p.quick, ThoroughBound: p.thorough, QuickEnv: p.qenv, ThoroughEnv: p.tenv, Weight: w, Judge: judge,
 				New: func() vsched.Harness { return &h{sc: p.sc, verbose: verbose} }})
 		}
+		// Thorough tier: smallest first (the weights are the measured sizes), so that a large scenario
+		// that overruns its share of the budget on a loaded machine cannot starve the small ones behind
+		// it (d1x deadlines are cumulative). The quick tier keeps the listed order (plain, failing
+		// store, full mode; each group simplest first).
+		if c.Thorough() {
+			sort.SliceStable(list, func(i, j int) bool { return list[i].Weight < list[j].Weight })
+		}
+		// every scenario gets at least 1/25 of the budget: start-up and the determinism gate dominate
+		// the small ones, and unused time passes on to the scenarios behind
+		total := 0.0
+		for _, sc := range list {
+			total += sc.Weight
+		}
+		for i := range list {
+			if list[i].Weight < total/25 {
+				list[i].Weight = total / 25
+			}
+		}
 		var names []string
 		for _, sc := range list {
 			names = append(names, sc.Name)
